@@ -81,6 +81,7 @@ type Engine struct {
 	MaxDepth   int
 	MaxWidth   int // max values when concretising
 	MaxPreempt int
+	Opts       map[string]string // per-obligation engine options (check.json "opts")
 	NoSleepSets bool // disable the sleep-set reduction (plain preemption-bounded search)
 	Bounds     map[string]int
 	NewSolver  func() (*solver.Solver, error)
@@ -118,6 +119,7 @@ type Engine struct {
 	LastSchedule []int
 	LastWhats []string
 	Fallbacks  int // assertion queries decided by the one-shot fallback
+	FeasUnknown int // branch-feasibility queries the solver left undecided (side explored as feasible: over-approximation)
 }
 
 type worklist struct {
@@ -222,8 +224,17 @@ func (r *run) feasible(c *term.Term) bool {
 		panic(pathEnd{kind: "engine-bug", msg: "symbolic condition in concrete replay: " + c.String()})
 	}
 	res, err := r.sol.CheckWith(c)
-	if err != nil || res == solver.Unknown {
-		r.incomplete = "solver unknown/err in feasibility"
+	if err != nil {
+		r.incomplete = "solver error in feasibility: " + err.Error()
+		return true
+	}
+	if res == solver.Unknown {
+		// Over-approximation: an undecided side of a branch is explored as if feasible. Every assertion on the extra
+		// path is still discharged, a violation needs a model of the whole path condition, and witnesses need sat, so a
+		// HOLDS verdict stays sound; the count is reported in the evidence.
+		r.eng.mu.Lock()
+		r.eng.FeasUnknown++
+		r.eng.mu.Unlock()
 		return true
 	}
 	return res == solver.Sat
@@ -266,6 +277,15 @@ func (r *run) branch(c *term.Term) bool {
 	panic(pathEnd{kind: "infeasible", msg: "path condition became unsatisfiable"})
 }
 
+// stackTail renders the innermost n frames (diagnostics).
+func (r *run) stackTail(n int) string {
+	st := ""
+	for i := len(r.stack) - 1; i >= 0 && i >= len(r.stack)-n; i-- {
+		st += " <- " + r.stack[i]
+	}
+	return st
+}
+
 // concretize picks a concrete value for t (case split over feasible values).
 func (r *run) concretize(t *term.Term, what string) uint64 {
 	if t.IsConst() {
@@ -301,7 +321,7 @@ func (r *run) concretize(t *term.Term, what string) uint64 {
 		vals = append(vals, v[0])
 		if len(vals) > r.eng.MaxWidth {
 			r.sol.Pop()
-			panic(pathEnd{kind: "unsupported", msg: fmt.Sprintf("shape too wide while concretising %s (> %d values)", what, r.eng.MaxWidth)})
+			panic(pathEnd{kind: "unsupported", msg: fmt.Sprintf("shape too wide while concretising %s (> %d values)%s", what, r.eng.MaxWidth, r.stackTail(6))})
 		}
 		r.sol.Assert(term.Not(term.Eq(t, term.Const(t.W, v[0]))))
 	}
